@@ -141,7 +141,9 @@ Section Idx.
   Inductive iop :=
   | IGen (j n : nat)
   | IScan (n : nat) (act : K -> bool)
-  | ISaveReload.
+  | ISaveReload
+  | ILock                                 (* bip44 Lock: addresses untouched, later ones derived publicly *)
+  | IUnlock.                              (* bip44 Unlock: secrets restored / synced, addresses untouched *)
 
   (* a failing op (chain out of range) leaves the wallet unchanged *)
   Definition i_step (w : iwallet) (o : iop) : iwallet :=
@@ -149,6 +151,8 @@ Section Idx.
     | IGen j n => match i_generate j n w with Some w' => w' | None => w end
     | IScan n act => i_scan n act w
     | ISaveReload => w
+    | ILock => w
+    | IUnlock => w
     end.
   Definition i_run (ops : list iop) (w : iwallet) : iwallet := fold_left i_step ops w.
   Fixpoint i_trace (ops : list iop) (w : iwallet) : list iwallet :=
@@ -167,6 +171,7 @@ Section Idx.
 End Idx.
 
 Arguments IGen {K} j n. Arguments IScan {K} n act. Arguments ISaveReload {K}.
+Arguments ILock {K}. Arguments IUnlock {K}.
 
 (* ------------------------------------------------------------ entries *)
 (* a wallet entry and its coherence: the address is the address of the public
